@@ -268,7 +268,7 @@ pub fn run(ctx: &mut Ctx) {
     for (n, ok) in r9::selftest(false) {
         ctx.selftest(&n, ok);
     }
-    ctx.require(&["free_invocation", "used_equals_drawn_checked", "injection_out_of_range", "injection_rejected_then_valid_used", "threads", "inject:0", "inject:order", "inject:order+1", "inject:2^256-1", "inject:sm2_[n,p-2]"]);
+    ctx.require(&["free_invocation", "used_equals_drawn_checked", "injection_out_of_range", "injection_rejected_then_valid_used", "threads", "exchange_object_reuse_step", "inject:0", "inject:order", "inject:order+1", "inject:2^256-1", "inject:sm2_[n,p-2]"]);
     for s in SITES.iter() {
         ctx.required.push(format!("site:{}", s.name));
     }
@@ -307,6 +307,77 @@ pub fn run(ctx: &mut Ctx) {
                     }
                 }
                 Err(e) => ctx.violation(&format!("{}:free:{}", site.name, e), json!({"site": site.name})),
+            }
+        }
+    }
+    // ---- histories on reused SM2 Exchange objects: every call that needs a scalar must draw a fresh one, also when
+    // the same object already ran a session (as initiator or as responder)
+    {
+        let reps = ctx.n(6, 60);
+        for rep in 0..reps {
+            if !ctx.mine(rep) {
+                continue;
+            }
+            let (Some(ska), Some(skb)) = (sm2x::lib_sk(&fx.d2), sm2x::lib_sk(&fx.d2b)) else { break };
+            let (Ok(mut a), Ok(mut b)) = (
+                gm_sm2::exchange::Exchange::new(16, None, &ska.public_key, &ska, None, &skb.public_key),
+                gm_sm2::exchange::Exchange::new(16, None, &skb.public_key, &skb, None, &ska.public_key),
+            ) else { break };
+            let mut seen_scalars: Vec<BigUint> = vec![];
+            // a script of calls on the two objects; A and B swap roles in the middle
+            let script: &[&str] = match rep % 3 {
+                0 => &["a1", "b2", "a1", "b2", "b1", "a2"],
+                1 => &["a1", "a1", "b2", "b2", "a1"],
+                _ => &["b1", "a2", "a1", "b2", "b1", "a2", "a1"],
+            };
+            let mut last_ra: Option<gm_sm2::p256_ecc::Point> = None;
+            let mut last_rb: Option<gm_sm2::p256_ecc::Point> = None;
+            for (step, op) in script.iter().enumerate() {
+                ctx.eval();
+                ctx.class("exchange_object_reuse_step");
+                sm2x::rng_prepare(&[]);
+                let (who, obj, peer_r): (&str, &mut gm_sm2::exchange::Exchange, &Option<gm_sm2::p256_ecc::Point>) = match *op {
+                    "a1" => ("A.exchange_1", &mut a, &None),
+                    "b1" => ("B.exchange_1", &mut b, &None),
+                    "a2" => ("A.exchange_2", &mut a, &last_rb),
+                    _ => ("B.exchange_2", &mut b, &last_ra),
+                };
+                let out = if op.ends_with('1') {
+                    guard(|| obj.exchange_1().ok())
+                } else {
+                    let pr = peer_r.clone().unwrap_or_else(|| r2::to_lib_point(&r2::g().unwrap(), &BigUint::one()));
+                    guard(|| obj.exchange_2(&pr).ok().map(|v| v.0))
+                };
+                let seen = seen2();
+                let Outcome::Ret(Some(rpt)) = out else {
+                    ctx.violation(&format!("sm2.exchange(reused object):{}:failed", who), json!({"script": script, "step": step}));
+                    break;
+                };
+                if op.starts_with('a') {
+                    last_ra = Some(rpt);
+                } else {
+                    last_rb = Some(rpt);
+                }
+                let w = json!({"script": script, "step": step, "call": who});
+                match seen.accepted.last() {
+                    None => {
+                        ctx.violation("sm2.exchange(reused object):no-fresh-scalar-drawn", w);
+                        break;
+                    }
+                    Some(k) => {
+                        if r2::from_lib_point(&rpt) != r2::mul(k, &r2::g()) {
+                            ctx.violation("sm2.exchange(reused object):R!=[r]G-for-the-scalar-drawn-in-this-call", w.clone());
+                        }
+                        if seen_scalars.contains(k) {
+                            ctx.violation("sm2.exchange(reused object):ephemeral-scalar-repeated", w);
+                        }
+                        seen_scalars.push(k.clone());
+                        ctx.unique("sm2.exchange/reused", &r2::b32(k)[..16]);
+                    }
+                }
+            }
+            if rep == 0 && ctx.shard == 0 {
+                ctx.sample(json!({"exchange_object_reuse_script": script}));
             }
         }
     }
